@@ -208,14 +208,13 @@ func c20CheckConst(c c20Case) h.Result {
 		if ED25519_BASEPOINT_TABLE != edwardsBasepointTableInnerDocHidden {
 			r.Fail(sig+":alias-broken", "")
 		}
+		// The table form that edwardsBasepointTableMul dereferences must exist
+		// (edwards_vector_amd64.go:init generates the vector form when AVX2 is
+		// present; whether the other form is kept is a memory matter and is
+		// not asserted).
 		tb := ED25519_BASEPOINT_TABLE
-		if supportsVectorizedEdwards {
-			// edwards_vector_amd64.go:init: generic table dropped, vector table generated
-			if tb.innerVector == nil || tb.inner != nil {
-				r.Fail(sig+":wrong-table-kind", "vector=%v generic=%v", tb.innerVector != nil, tb.inner != nil)
-			}
-		} else if tb.inner == nil || tb.innerVector != nil {
-			r.Fail(sig+":wrong-table-kind", "vector=%v generic=%v", tb.innerVector != nil, tb.inner != nil)
+		if supportsVectorizedEdwards && tb.innerVector == nil || !supportsVectorizedEdwards && tb.inner == nil {
+			r.Fail(sig+":missing-table-form", "avx2=%v vector=%v generic=%v", supportsVectorizedEdwards, tb.innerVector != nil, tb.inner != nil)
 		}
 	case "constMINUS_ONE":
 		c20fe(r, sig, &constMINUS_ONE, ref.C20MinusOne)
